@@ -19,11 +19,19 @@
         which it carries no failure mark (C20_later_reactivation); the re-activation sweep of the check (react_seq, the
         model function that is run against the implementation's `react`) can answer false only for a block with a
         failure mark (C20_react_sweep_sound).
+      * the comparison clause as an invariant of ALL reachable states: a block whose own ancestry does not replay from
+        the bootstrap state (valid only next to a competing chain) is at no reachable state at the fully-valid level
+        (C20_never_full_unless_valid_alone); a block at that level has every ancestor at that level, unfailed, and
+        replays alone (C20_full_means_validated_alone);
+      * revert order at full strength (equalities of protecting states): applyBlock executes the block's commands in
+        body order, unapplyBlock un-executes them one by one in exactly the reverse order (C20_apply_executes_in_order,
+        C20_unapply_reverts_in_reverse); the unapplyWhile(not fully valid) that comparePopScore runs before unapplying the
+        losing chain stops only at the fork or at a fully valid block (C20_unvalidated_unapplied_first).
     No _partial theorem is left for this property. (Finalization and altchain invalidate/revalidate are outside the
     model: the premise "not invalidated" is the FAILED_* flags of the block; they are exercised on the implementation
     by the re-activation oracle.) *)
 From Coq Require Import List ZArith NArith Bool.
-From VB Require Import Pop.SmDefs Pop.SmProofs Pop.SmWf Pop.SmTruth Pop.SmCmp Pop.SmAll Pop.SmCoh Pop.SmFull Pop.SmReact Pop.SmLaterDefs Pop.SmLater.
+From VB Require Import Pop.SmDefs Pop.SmProofs Pop.SmWf Pop.SmTruth Pop.SmCmp Pop.SmAll Pop.SmCoh Pop.SmFull Pop.SmReact Pop.SmLaterDefs Pop.SmLater Pop.SmTree Pop.SmAlone Pop.SmRevert.
 Local Open Scope Z_scope.
 
 Theorem C20_full_level_guard :
@@ -104,3 +112,43 @@ Theorem C20_react_sweep_sound :
               exists ops s1 b1, run s ops = Ok s1 /\ find ccmd (blocks _ _ s1) t = Some b1 /\ is_failed _ b1 = true.
 Proof. exact react_seq_sound. Qed.
 Print Assumptions C20_react_sweep_sound.
+
+(** the comparison clause, all reachable states *)
+Theorem C20_full_means_validated_alone :
+  forall base s to bto,
+    reachable base s -> find ccmd (blocks _ _ s) to = Some bto -> valid_upto _ bto L_FULL = true ->
+    (forall i, Z.of_nat i <= dep s to ->
+               exists b, find ccmd (blocks _ _ s) (up (cores s) i to) = Some b /\ N.le L_FULL (b_lvl _ b) /\ is_failed _ b = false) /\
+    exists p', replay (bgs s (depth s to) to) base = Some p'.
+Proof. exact full_means_validated_alone. Qed.
+Print Assumptions C20_full_means_validated_alone.
+
+Theorem C20_never_full_unless_valid_alone :
+  forall base s b,
+    reachable base s -> In b (blocks _ _ s) ->
+    replay (bgs s (depth s (b_id _ b)) (b_id _ b)) base = None ->
+    N.leb L_FULL (b_lvl _ b) = false.
+Proof. exact never_full_unless_valid_alone. Qed.
+Print Assumptions C20_never_full_unless_valid_alone.
+
+(** apply / revert order, equalities of protecting states *)
+Theorem C20_apply_executes_in_order :
+  forall s i s' b,
+    c_applyBlock s i = Ok (s', true) -> find ccmd (blocks _ _ s) i = Some b ->
+    gexec pstate ccmd cexec cunexec nil (concat (b_gs _ b)) (pst _ _ s) = (pst _ _ s', true).
+Proof. exact apply_executes_in_order. Qed.
+Print Assumptions C20_apply_executes_in_order.
+
+Theorem C20_unapply_reverts_in_reverse :
+  forall s i s' b,
+    c_unapplyBlock s i = Ok s' -> find ccmd (blocks _ _ s) i = Some b ->
+    pst _ _ s' = undo pstate ccmd cunexec (rev (concat (b_gs _ b))) (pst _ _ s).
+Proof. exact unapply_reverts_in_reverse. Qed.
+Print Assumptions C20_unapply_reverts_in_reverse.
+
+Theorem C20_unvalidated_unapplied_first :
+  forall fuel s cur to s' w,
+    unapplyWhile pstate ccmd cunexec fuel s cur to (not_full ccmd) = Ok (s', w) ->
+    w = to \/ exists bw, find ccmd (blocks _ _ s') w = Some bw /\ valid_upto _ bw L_FULL = true.
+Proof. exact unvalidated_unapplied_first. Qed.
+Print Assumptions C20_unvalidated_unapplied_first.
